@@ -337,6 +337,13 @@ func (s *Smr) handleReceivedProposal(msg *xuperp2p.XuperMessage) {
 	isFirstJustify := bytes.Equal(s.qcTree.Genesis.In.GetProposalId(), parentQC.GetProposalId())
 	// 0.若为初始状态，则无需检查justify，否则需要检查qc有效性
 	if !isFirstJustify {
+		// justify声明的view不在签名范围内: justify对应的节点在本地时, 必须与本地节点的view一致, 否则会按错误的view选取validators
+		if parentNode := s.qcTree.DFSQueryNode(parentQC.GetProposalId()); parentNode != nil &&
+			parentNode.In.GetProposalView() != parentQC.GetProposalView() {
+			s.log.Debug("smr::handleReceivedProposal::justify view differs from the local proposal's view", "justifyView", parentQC.GetProposalView(),
+				"localView", parentNode.In.GetProposalView(), "parentId", utils.F(parentQC.GetProposalId()))
+			return
+		}
 		if err := s.saftyrules.CheckProposal(&QuorumCert{
 			VoteInfo:  newVote,
 			SignInfos: []*chainedBftPb.QuorumCertSign{newProposalMsg.GetSign()},
